@@ -44,6 +44,39 @@ def _cls(ctx: Context, name: str) -> ast.ClassDef:
     return ctx.repo.mod(CW).cls(name)
 
 
+def r1b_deadline_sorted(ctx: Context, rule: str = "C15.R1") -> None:
+    """Queues are kept sorted by absolute deadline: the head-of-queue deadline tests (pruning, batch feasibility) speak
+    for the whole batch only under this order."""
+    if rule != "C15.R1":
+        ctx.rule(rule, "Clockwork tests only the head of a strategy queue against the deadline; every request is inserted "
+                       "with bisect.insort into every queue and Request.__lt__ orders by the task's absolute deadline, so the "
+                       "head has the earliest deadline of any batch taken from the front")
+    model = _cls(ctx, "Model")
+    fn = method(model, "add_task")
+    # inserted into every queue, sorted
+    ins = [c for c in calls_in(fn, "insort")]
+    ok = False
+    for c in ins:
+        lp = parent(c)
+        while lp is not None and not isinstance(lp, ast.For):
+            lp = parent(lp)
+        if lp is not None and norm(lp.iter) == "self._request_queues.values()" and norm(c.args[0]) == norm(lp.target) and (dotted(c.func) or "") == "bisect.insort":
+            ok = True
+    ctx.check(ok, rule, "Model.add_task|request inserted sorted into every strategy queue", loc(fn), "for q in queues: bisect.insort(q, request)",
+              "requests are not kept deadline-sorted in every queue")
+    req = [c for c in model.body if isinstance(c, ast.ClassDef) and c.name == "Request"]
+    if not req:
+        raise AnalysisError("Model.Request not found")
+    lt = method(req[0], "__lt__")
+    r = [x for x in ast.walk(lt) if isinstance(x, ast.Return)]
+    want = lin.formula(ast.parse("self.deadline < other.deadline", mode="eval").body)
+    ctx.check(len(r) == 1 and lin.equivalent(lin.formula(r[0].value), want), rule, "Model.Request.__lt__|orders by deadline", loc(lt), "deadline order",
+              f"requests are ordered by `{norm(r[0].value) if r else '?'}`")
+    dl = methods(req[0]).get("deadline")
+    ctx.check(dl is not None and any(isinstance(x, ast.Return) and norm(x.value) == "self._task.deadline" for x in ast.walk(dl)), rule,
+              "Model.Request.deadline|the task's deadline", loc(dl) if dl else loc(req[0]), "ok", "Request.deadline is not the task's deadline")
+
+
 def r1_one_model_per_queue(ctx: Context) -> None:
     ctx.rule("C15.R1", "Model.add_task refuses a foreign profile before inserting; Models.add_task routes by task.profile.id")
     model = _cls(ctx, "Model")
@@ -64,28 +97,7 @@ def r1_one_model_per_queue(ctx: Context) -> None:
     ok = bool(idem) and all(g.edge_dominates(idem[0], "T", g.node_of(i)) for i in inserts)
     ctx.check(ok, "C15.R1", "Model.add_task|idempotent on the task table", loc(fn), "insert only if task not in self._tasks",
               "a task offered in two invocations is queued twice and can be placed twice")
-    # inserted into every queue, sorted
-    ins = [c for c in calls_in(fn, "insort")]
-    ok = False
-    for c in ins:
-        lp = parent(c)
-        while lp is not None and not isinstance(lp, ast.For):
-            lp = parent(lp)
-        if lp is not None and norm(lp.iter) == "self._request_queues.values()" and norm(c.args[0]) == norm(lp.target) and (dotted(c.func) or "") == "bisect.insort":
-            ok = True
-    ctx.check(ok, "C15.R1", "Model.add_task|request inserted sorted into every strategy queue", loc(fn), "for q in queues: bisect.insort(q, request)",
-              "requests are not kept deadline-sorted in every queue")
-    req = [c for c in model.body if isinstance(c, ast.ClassDef) and c.name == "Request"]
-    if not req:
-        raise AnalysisError("Model.Request not found")
-    lt = method(req[0], "__lt__")
-    r = [x for x in ast.walk(lt) if isinstance(x, ast.Return)]
-    want = lin.formula(ast.parse("self.deadline < other.deadline", mode="eval").body)
-    ctx.check(len(r) == 1 and lin.equivalent(lin.formula(r[0].value), want), "C15.R1", "Model.Request.__lt__|orders by deadline", loc(lt), "deadline order",
-              f"requests are ordered by `{norm(r[0].value) if r else '?'}`")
-    dl = methods(req[0]).get("deadline")
-    ctx.check(dl is not None and any(isinstance(x, ast.Return) and norm(x.value) == "self._task.deadline" for x in ast.walk(dl)), "C15.R1",
-              "Model.Request.deadline|the task's deadline", loc(dl) if dl else loc(req[0]), "ok", "Request.deadline is not the task's deadline")
+    r1b_deadline_sorted(ctx)
     models = _cls(ctx, "Models")
     ma = method(models, "add_task")
     calls = [c for c in calls_in(ma, "add_task") if isinstance(c.func.value, ast.Subscript)]
@@ -296,9 +308,9 @@ def r6_admission(ctx: Context, rule: str = "C15.R6") -> None:
 
 
 def run(ctx: Context) -> None:
-    r1_one_model_per_queue(ctx)
-    r2_full_batches(ctx)
-    r3_placed_once(ctx)
-    r4_loaded_and_fitting(ctx)
-    r5_on_time(ctx)
-    r6_admission(ctx)
+    ctx.isolate(r1_one_model_per_queue)
+    ctx.isolate(r2_full_batches)
+    ctx.isolate(r3_placed_once)
+    ctx.isolate(r4_loaded_and_fitting)
+    ctx.isolate(r5_on_time)
+    ctx.isolate(r6_admission)
